@@ -17,13 +17,44 @@ UNIT = {
         (LC, ['struct Token'], {'drop_derives': 'all'}),
         ('@raw', 'pub use TokenId::*;\n'),
         (PC, ['enum Rec'], {'drop_derives': 'all'}),
+        (LC, ['struct SourceCharEx'], {'pub_fields': True, 'vis': 'pub', 'drop_derives': 'all'}),
         ('@file', 'prelude.rs'),
         (SRC, ['impl Source', 'fn is_alias_for'], {'ret': 'r',
             'token_rewrites': [('alias . name == name', 'verif_name_eq(&alias.name, name)')],
             'ensures': ['r == in_alias_chain(*self, name@)'],
             'decreases': ['*self']}),
+        (LC, ["impl<'a> LexerCore<'a>", 'fn is_after_blank_ending_alias'], {'ret': 'r', 'rewrites': ['let-chain-nest'],
+            'requires': ['index as int <= self.source@.len()'],
+            'token_rewrites': [
+                # `for index in (0..index).rev()` = the indices below `index` from the highest to the lowest
+                ('for $v in ( 0 .. index ) . rev ( ) {',
+                 'let ghost verif_top = index as int; let mut verif_n: usize = index;\n'
+                 '        while verif_n > 0\n'
+                 '            invariant verif_n as int <= verif_top <= self.source@.len(), verif_top == index as int,\n'
+                 '                forall|j: int| verif_n as int <= j < verif_top ==> blankish(#[trigger] self.source@[j]) && !alias_value_ends_at(self.source@, j),\n'
+                 '            decreases verif_n,\n'
+                 '        {\n'
+                 '            verif_n -= 1; let $v = verif_n;'),
+                ('Source :: Alias { ref alias , .. } = * sc . value . location . code . source', 'Source::Alias { alias, .. } = &*sc.value.location.code.source'),
+            ],
+            'ghost_before': [
+                ('return false ;', 'proof { assert(!blankish(self.source@[$v as int])); assert forall|k: int| 0 <= k < verif_top && k < self.source@.len() && (forall|j: int| k <= j < verif_top ==> blankish(#[trigger] self.source@[j])) implies !alias_value_ends_at(self.source@, k) by { if k <= $v as int { assert(blankish(self.source@[$v as int])); } } assert(!after_blank_ending(self.source@, verif_top)); }'),
+                ('return true ;', 'proof { assert(alias_value_ends_at(self.source@, $v as int)); assert(forall|j: int| $v as int <= j < verif_top ==> blankish(#[trigger] self.source@[j])); assert(after_blank_ending(self.source@, verif_top)); }'),
+            ],
+            'nested': {
+                'ends_with_blank': {'ret': 'b', 'attrs': ['#[verifier::external_body]'], 'ensures': ['b == text_ends_with_blank(s@)']},
+                'is_same_alias': {'ret': 'b',
+                    'closures': {0: {'ret': 'c: bool', 'param_types': ['&SourceCharEx'], 'ensures': ['c == in_alias_chain(*sc.value.location.code.source, alias.name@)']}},
+                    'ensures': ['b == (sc matches Some(x) && in_alias_chain(*x.value.location.code.source, alias.name@))']},
+            },
+            'ensures': ['r == after_blank_ending(self.source@, index as int)'],
+            }),
+        (LC, ["impl<'a> Lexer<'a>", 'fn is_after_blank_ending_alias'], {'ret': 'r',
+            'requires': ['index as int <= self.core.source@.len()'],
+            'ensures': ['r == self.after_blank_ending_alias(index)']}),
         (PC, ["impl<'a, 'b> Parser<'a, 'b>", 'fn substitute_alias'], {'ret': 'r', 'rewrites': ['let-chain-nest'],
             'wrapper': "impl<'a, 'b, G: Glossary> Parser<'a, 'b, G>",
+            'requires': ['token.index as int <= old(self).lexer.core.source@.len()'],
             'ensures': [
                 # exactly the eligible tokens are replaced ...
                 'r is AliasSubstituted <==> eligible(old(self).aliases, &*old(self).lexer, token, is_command_name)',
